@@ -1033,19 +1033,16 @@ func c01Collapse(c *kit.Ctx, m *storeModel, r5 *kit.Rule) {
 	}
 	// the range loop over *recv and its element
 	var loop *ast.RangeStmt
-	ast.Inspect(cf.Body, func(n ast.Node) bool {
-		if rs, ok := n.(*ast.RangeStmt); ok && loop == nil {
-			if _, ok := ast.Unparen(rs.X).(*ast.StarExpr); ok && rs.Value != nil {
-				loop = rs
-			}
+	for _, rs := range cf.SliceLoops(cf.Body) {
+		if _, ok := ast.Unparen(rs.X).(*ast.StarExpr); ok && loop == nil && kit.LoopElemVar(info, rs) != nil {
+			loop = rs
 		}
-		return true
-	})
+	}
 	if loop == nil {
 		r5.Ob(cf, nil, "de-duplication loop", "loop over the batch").Undecided("no range over *recv")
 		return
 	}
-	elem := kit.ObjOf(info, loop.Value)
+	elem := kit.LoopElemVar(info, loop)
 	// (iii) key components: type from elem.Type, key from elem.Key, key normalised before first map index
 	oComp := r5.Ob(cf, loop, "identity components", "the map key is built from the element's Type and Key, the key component normalised before the lookup")
 	var firstIndex *ast.IndexExpr
@@ -1441,10 +1438,10 @@ func boundArgsProblem(c *kit.Ctx, w *pointWriter, pointFields map[string]string,
 	f := w.F
 	info := f.Info()
 	cols := w.Exec.Stmts[0].Cols
-	rs, _ := f.Enclosing(w.Exec.Call, func(n ast.Node) bool { _, ok := n.(*ast.RangeStmt); return ok }).(*ast.RangeStmt)
+	rs := f.EnclosingLoop(w.Exec.Call)
 	var wpt types.Object
-	if rs != nil && rs.Value != nil {
-		wpt = kit.ObjOf(info, rs.Value)
+	if rs != nil {
+		wpt = kit.LoopElemVar(info, rs)
 	}
 	if rs == nil || wpt == nil {
 		return "the INSERT Exec is not inside a range loop over the points to write"
